@@ -127,9 +127,13 @@ pub fn c10(out: &mut dyn Write, tier: &str, rng: &mut Rng, st: &mut Stats) { run
 /// direction in which forced choices are dropped, `-f` the rows that are shown)
 pub fn c20_cli(out: &mut dyn Write, tier: &str, rng: &mut Rng, st: &mut Stats) { runs(out, tier, rng, st, "C20") }
 
+/// `-m -t` through the binary, alone and together with `-c`, `-f`, `-v`, `-r`, `-b`
+pub fn c07_cli(out: &mut dyn Write, tier: &str, rng: &mut Rng, st: &mut Stats) { runs(out, tier, rng, st, "C07") }
+
 fn runs(out: &mut dyn Write, tier: &str, rng: &mut Rng, st: &mut Stats, tag: &str) {
     let c20 = tag == "C20";
-    let n = if c20 { if tier == "thorough" { 6000 } else { 500 } } else if tier == "thorough" { 8000 } else { 450 };
+    let c07 = tag == "C07";
+    let n = if c20 { if tier == "thorough" { 6000 } else { 500 } } else if c07 { if tier == "thorough" { 3000 } else { 200 } } else if tier == "thorough" { 8000 } else { 450 };
     for i in 0..n {
         let (gf, text, names) = gen_formula(rng, i % 5 == 0, 5);
         let ordering = gen_ordering(rng, &names);
@@ -138,13 +142,13 @@ fn runs(out: &mut dyn Write, tier: &str, rng: &mut Rng, st: &mut Stats, tag: &st
         // -t in most runs; -v, -m, -r sometimes
         if rng.chance(5, 6) { extra.push("-t".into()); flags.push('t'); }
         if rng.chance(1, 3) { extra.push("-v".into()); flags.push('v'); }
-        if rng.chance(1, 4) { extra.push("-m".into()); flags.push('m'); }
+        if c07 || rng.chance(1, 4) { extra.push("-m".into()); flags.push('m'); }
         if rng.chance(1, 4) { extra.push("-r".into()); flags.push('r'); }
         let f = if rng.chance(1, 2) { *rng.pick(&FILTER_SPELLINGS[..]) } else { "any" };
         if f != "any" || rng.chance(1, 4) { extra.push("-f".into()); extra.push(f.to_string()); }
-        let c = if c20 { *rng.pick(&FILTER_SPELLINGS[..10]) } else if rng.chance(1, 6) { *rng.pick(&FILTER_SPELLINGS[..]) } else { "any" };
+        let c = if c20 { *rng.pick(&FILTER_SPELLINGS[..10]) } else if c07 && rng.chance(1, 2) { *rng.pick(&FILTER_SPELLINGS[..10]) } else if rng.chance(1, 6) { *rng.pick(&FILTER_SPELLINGS[..]) } else { "any" };
         if c != "any" { extra.push("-c".into()); extra.push(c.to_string()); }
-        if c20 && !flags.contains('t') { extra.push("-t".into()); flags.push('t'); }
+        if (c20 || c07) && !flags.contains('t') { extra.push("-t".into()); flags.push('t'); }
         // half of the C20 runs: the filter of the rows is the opposite of the direction of -c
         let f = if c20 && i % 2 == 0 && !extra.contains(&"-f".to_string()) {
             let opp = if FILTER_SPELLINGS[..5].contains(&c) { FILTER_SPELLINGS[5 + (i / 2) % 5] } else { FILTER_SPELLINGS[(i / 2) % 5] };
@@ -262,6 +266,13 @@ pub fn c11(out: &mut dyn Write, tier: &str, rng: &mut Rng, st: &mut Stats) {
             let exported = run_tool(text.as_bytes(), 0, Some(&ordering), &r_args, "c11");
             let r2 = run_tool(text.as_bytes(), 0, Some(&exported.stdout), &t_args, "c11");
             let roundtrip = if r1.class == "ok" && exported.class == "ok" { if r2.class == "ok" && r1.stdout == r2.stdout { "1" } else { "0" } } else { "-" };
+            // the printed table under the ordering file against the printed table under the default order: the same
+            // function of the same named variables (and the tool must not crash under an ordering it accepts)
+            let r0 = run_tool(text.as_bytes(), 0, None, &t_args, "c11");
+            let tab = |r: &Run| -> String { match read_stdout(&r.stdout) {
+                Some(p) => format!("{}|{}", p.header.map(|h| hex_names(&h)).unwrap_or_else(|| "-".to_string()), p.rows.join(";")),
+                None => "UNREADABLE|".to_string() } };
+            writeln!(out, "C11|tables|{}|{}|{}|{}", r0.class, tab(&r0), r1.class, tab(&r1)).unwrap();
             writeln!(out, "C11|order|{}|{}|T:{}|{}|{}|{}|{}|{}|{}|{}|{}", hex(text.as_bytes()), classes_of(&text), hex(&ordering),
                 std::str::from_utf8(&ordering).map(classes_of).unwrap_or_default(), vars_d, res_d, vars_o, res_o, roundtrip, free_d, free_o).unwrap();
             st.hit("cli");
